@@ -24,7 +24,7 @@ FORMAT = 1
 DEFAULT_SEED = 20261004
 
 QUICK_RUNS = {"C09": 1800, "C10": 1100, "C08": 6000}
-MIN_RUNS = {"C09": 600, "C10": 320, "C08": 800}
+MIN_RUNS = {"C09": 600, "C10": 330, "C08": 800}
 GEN_SIZE = 512
 MINIMISE_WALL_S = 240
 TITLES = {"C08": "identity caches and pickling across 1-2 interpreters",
